@@ -108,7 +108,7 @@ F_PLACES = [
     "@ end {act}\n",
     "@ {pat} {act}\n@ end {{ puts(NP); }}\n@ end {{ puts(g); }}\n",
 ]
-F_PRELUDE = "let g = 1;\nlet x = 0;\nlet loc = 0;\nfn f(n) { n + g }\nfn rec(n) { if n == 0 { 0 } else { 1 + rec(n - 1) } }\nfn self_name(n) { n }\nfn inf() { return inf(); }\nfn pa() { return pb(); }\nfn pb() { return pa(); }\nfn inf3() { inf3(); return 0; }\n"
+F_PRELUDE = "let g = 1;\nlet x = 0;\nlet loc = 0;\nfn f(n) { n + g }\nfn rec(n) { if n == 0 { 0 } else { 1 + rec(n - 1) } }\nfn self_name(n) { n }\nfn inf() { return inf(); }\nlet pb = null;\nfn pa() { return pb(); }\npb = fn() { return pa(); };\nfn inf3() { inf3(); return 0; }\n"
 
 
 def filter_programs(rng, n_random):
@@ -122,6 +122,15 @@ def filter_programs(rng, n_random):
         body = "".join(rng.choice(F_PLACES).format(pat=rng.choice(F_PATTERNS), act=rng.choice(F_ACTIONS)) for _ in range(rng.randint(1, 3)))
         out.append(F_PRELUDE + body)
     return out
+
+
+def guards(ctx, cases):
+    """the engines must keep exercising what they are for: most filter programs compile and run"""
+    f = [c for c in cases if c.line.startswith("filt ")]
+    bad = [c for c in f if c.impl == "cerr"]
+    if f and len(bad) > 0.65 * len(f):
+        return [f"generator degenerate: {len(bad)} of {len(f)} filter programs are rejected by the compiler (e.g. {bad[0].extra['src'][-120:]!r})"]
+    return []
 
 
 def run_filter(ctx, scratch, idx, c):
